@@ -445,3 +445,38 @@ func c17Route[V univers.Version[V], VR univers.VersionRange[V]](e univers.Ecosys
 	vv.Assume(!vv.Known("KF-C02-x-in-bound", c02NpmX(e.Name(), a)))
 	vv.Assert(ok == opSem(op, pv.Compare(pa)), "C17: scheme is not evaluated with its ecosystem's order")
 }
+
+// c04VersN: like c04Vers for up to 8 constraints; the versions come as one text joined by '|'.
+func c04VersN[V univers.Version[V], VR univers.VersionRange[V]](e univers.Ecosystem[V, VR], scheme, ops, versions, probe string) {
+	ol := strings.Split(ops, " ")
+	vs := strings.Split(versions, "|")
+	vv.Assume(len(ol) == len(vs))
+	var pv []V
+	for _, s := range vs {
+		p, err := e.NewVersion(s)
+		vv.Assume(err == nil)
+		pv = append(pv, p)
+	}
+	pp, ep := e.NewVersion(probe)
+	vv.Assume(ep == nil)
+	vv.Reached()
+	for i := 0; i+1 < len(pv); i++ {
+		vv.Assume(pv[i].Compare(pv[i+1]) < 0)
+	}
+	text := "vers:" + scheme + "/"
+	for i := range vs {
+		if i > 0 {
+			text += "|"
+		}
+		text += ol[i] + vs[i]
+	}
+	c := make([]int, len(vs))
+	for i := range vs {
+		c[i] = sign(pp.Compare(pv[i]))
+	}
+	vv.Assume(!vv.Known("KF-C04-grouping-heuristics", c04BadGrouping(ol)))
+	got, err := vers.Contains(text, probe)
+	vv.Assert(err == nil, "C04: well-formed VERS range with valid versions is rejected")
+	vv.Assume(err == nil)
+	vv.Assert(got == versSem(ol, c), "C04: vers.Contains differs from the union-of-intervals denotation")
+}
